@@ -37,6 +37,7 @@ func init() {
 			{Name: "foreign-comments-installed", File: f, Old: "func compileReturnStmt(ctx *blockCtx, expr *ast.ReturnStmt) {\n", New: "func compileReturnStmt(ctx *blockCtx, expr *ast.ReturnStmt) {\n\tctx.cb.SetComments(&goast.CommentGroup{List: []*goast.Comment{{Text: \"// return\"}}}, true)\n", Expect: "comments-census/compileReturnStmt"},
 			{Name: "elseif-bypasses-compileStmt", File: f, Old: "\t\tif stmts, ok := e.(*ast.BlockStmt); ok {\n\t\t\tcompileStmts(ctx, stmts.List)\n\t\t} else {\n\t\t\tcompileStmt(ctx, e)\n\t\t}", New: "\t\tif stmts, ok := e.(*ast.BlockStmt); ok {\n\t\t\tcompileStmts(ctx, stmts.List)\n\t\t} else if ei, ok := e.(*ast.IfStmt); ok {\n\t\t\tcompileIfStmt(ctx, ei)\n\t\t} else {\n\t\t\tcompileStmt(ctx, e)\n\t\t}", Expect: "stmt-route/compileIfStmt→compileIfStmt"},
 			{Name: "funclit-no-restore", File: "cl/expr.go", Old: "\t\tloadFuncBody(ctx, fn, body, nil, v)\n\t\tcb.SetComments(comments, once)\n", New: "\t\tloadFuncBody(ctx, fn, body, nil, v)\n\t\t_, _ = comments, once\n", Expect: "nested-restore/compileFuncLit"},
+			{Name: "funcbody-no-restore", File: "cl/compile.go", Old: "\tcomments, once := ctx.cb.BackupComments()\n\tdefer func() {\n\t\tctx.cb.SetComments(comments, once)\n\t}()\n\tcb := fn.BodyStart(ctx.pkg, body)", New: "\tcb := fn.BodyStart(ctx.pkg, body)", Expect: "nested-restore/loadFuncBody"},
 			{Name: "fileline-guard-inverted", File: f, Old: "\tif ctx.fileLine {\n\t\tcommentStmtEx(ctx.cb, ctx.pkgCtx, stmt)\n\t}", New: "\tif ctx.fileLine && ctx.relBaseDir != \"\" {\n\t\tcommentStmtEx(ctx.cb, ctx.pkgCtx, stmt)\n\t}", Expect: "stmt-guard/commentStmt"},
 		},
 	})
@@ -51,7 +52,6 @@ var c09DirectCalls = map[string]string{
 // c09NoRestore: routines that lower a nested statement list and need not restore the pending directive.
 var c09NoRestore = map[string]string{
 	"compileStmt":  "the BlockStmt arm: the block is the whole statement, nothing of an enclosing statement is emitted after it in this routine",
-	"loadFuncBody": "the body of a function: there is no enclosing statement (closures save/restore in compileFuncLit / compileLambdaExpr2 around this call)",
 	"compileStmts": "the list walker itself",
 	"loadFunc":     "a top-level function or method body: no enclosing statement",
 }
@@ -305,6 +305,7 @@ func runC09(c *core.Check) {
 				bNested
 				bNestedUnsaved
 				bRestored
+				bDeferredRestore
 			)
 			var savedVar types.Object
 			ast.Inspect(fd.Body, func(n ast.Node) bool {
@@ -319,6 +320,19 @@ func runC09(c *core.Check) {
 			})
 			p := &flow.Problem{Body: fd.Body, Info: info}
 			p.Node = func(n ast.Node, st flow.State, record bool) flow.State {
+				if ds, ok := n.(*ast.DeferStmt); ok {
+					if lit, ok := ds.Call.Fun.(*ast.FuncLit); ok && savedVar != nil {
+						ast.Inspect(lit.Body, func(m ast.Node) bool {
+							if call, ok := m.(*ast.CallExpr); ok && len(call.Args) == 2 && identObj(info, call.Args[0]) == savedVar {
+								if fn, ok := calleeObj(info, call).(*types.Func); ok && fn.Name() == "SetComments" {
+									st |= bDeferredRestore
+								}
+							}
+							return true
+						})
+					}
+					return st
+				}
 				for _, call := range flow.Calls(n) {
 					o := calleeObj(info, call)
 					fn, _ := o.(*types.Func)
@@ -340,7 +354,7 @@ func runC09(c *core.Check) {
 			res := flow.Solve(p)
 			ok := len(res.Exits) > 0
 			for _, e := range res.Exits {
-				if e.State&bNested != 0 && (e.State&bNestedUnsaved != 0 || e.State&bRestored == 0) {
+				if e.State&bNested != 0 && (e.State&bNestedUnsaved != 0 || e.State&(bRestored|bDeferredRestore) == 0) {
 					ok = false
 				}
 			}
